@@ -94,7 +94,46 @@ def playback(harness_name, want_desc=None):
             'native_panic': (m.group(0)[:400] if m else None), 'native_tail': out[-2500:]}
 
 
+def _tree_hash(unit, hs, tier):
+    h = hashlib.sha256()
+    roots = [os.path.join(REPO, 'src'), '/verif/hooks', '/verif/spec']
+    files = [os.path.join(REPO, 'Cargo.toml'), os.path.join(REPO, 'Cargo.lock'), '/verif/lib/kunit.py']
+    for r in roots:
+        for root, _, fs in os.walk(r):
+            for f in sorted(fs):
+                files.append(os.path.join(root, f))
+    for f in sorted(files):
+        if os.path.exists(f):
+            h.update(f.encode()); h.update(open(f, 'rb').read())
+    h.update(repr([(x.name, x.complete, x.bound, x.refusal, x.unwind_is_obligation, x.timeout, x.tier, x.covers) for x in hs]).encode())
+    h.update(('%s|%s|%s' % (unit, tier, REPO)).encode())
+    return h.hexdigest()[:24]
+
+
 def check_unit(unit, harnesses, tier='quick', jobs=8, do_playback=True):
+    """results of a PASSING unit are memoised under a hash of everything the verdict depends on (all of /repo/src, Cargo.toml/lock,
+    /verif/hooks, /verif/spec, the harness list and tier): the same unit serves several properties and CBMC is deterministic, so
+    re-running it on byte-identical input only costs time. Any edit to the tree changes the hash. VERIF_NOCACHE=1 disables it."""
+    hs0 = [h for h in harnesses if tier == 'thorough' or h.tier == 'quick']
+    key = _tree_hash(unit, hs0, tier)
+    cdir = os.path.join(BUILD, 'cache')
+    cfile = os.path.join(cdir, '%s-%s.json' % (unit.replace('-', '_'), key))
+    if not os.environ.get('VERIF_NOCACHE') and os.path.exists(cfile) and time.time() - os.path.getmtime(cfile) < 6 * 3600:
+        try:
+            r = json.load(open(cfile))
+            r['notes'] = list(r.get('notes', [])) + ['memoised result for byte-identical inputs (tree hash %s), first computed %s' % (key, time.strftime('%Y-%m-%d %H:%M:%S', time.gmtime(os.path.getmtime(cfile))))]
+            r['memoised'] = True
+            return r
+        except Exception:
+            pass
+    r = _check_unit(unit, harnesses, tier, jobs, do_playback)
+    if r['status'] == 'ok':
+        os.makedirs(cdir, exist_ok=True)
+        json.dump(r, open(cfile, 'w'))
+    return r
+
+
+def _check_unit(unit, harnesses, tier='quick', jobs=8, do_playback=True):
     hs = [h for h in harnesses if tier == 'thorough' or h.tier == 'quick']
     res = {'unit': unit, 'engine': 'kani 0.68.0 / cbmc 6.11.0 (cadical) on the real crate', 'status': 'undecided',
            'failures': [], 'obligations': 0, 'discharged': 0, 'bounded_obligations': 0, 'bounded_discharged': 0,
